@@ -14,8 +14,9 @@ PY = os.path.join(ROOT, ".venv", "bin", "python")
 ASSUMPTIONS_ALWAYS = [
     "machine floating point treated as real arithmetic (no rounding, overflow, NaN except the explicit NaN tag)",
     "numpy integer dtypes treated as mathematical integers (no wrap-around)",
-    "numpy, pint, struct, numba, matplotlib behave as the stubs in pyvc/stubs state (assumed contracts, "
-    "cross-checked on samples by checks/crosscheck.py, never proved)",
+    "numpy, pint, struct, numba, matplotlib behave as the stubs in pyvc/stubs state (assumed contracts, never proved; "
+    "the numpy stub is compared with the real numpy on a catalogue of concrete expressions by checks/crosscheck.py, and "
+    "every property's bounded native stand-in runs the real libraries end to end)",
     "numba compiles the Python source of @njit kernels faithfully; prange semantics as documented by numba",
     "CPython executes the extracted module text exactly as it executes the repository file "
     "(extraction changes only imports, a fixed set of builtins and loops with a sidecar invariant)",
